@@ -129,12 +129,71 @@ if __name__ == "__main__":
         (the stream of C10; a result is a snapshot, monitors included)"""
         name = "monitor_reread"
 
-    main("C06", [PurityStream(), MonitorReread()],
+    import copy
+    import netlib
+    from common import Stream
+
+    class LaterBuiltStream(Stream):
+        """solve() has no effect on circuits built LATER: circuit A (a phase shifter followed by user-matrix models,
+        i.e. blocks created through Model.__init__ without a parameter dictionary) is solved with explicit values, then
+        the same description is built again from fresh objects and solved with defaults: the model's answer for the
+        defaults is required"""
+        name = "later_built"
+        imports = "Field Matrix Base Kernel Network Solve Corr"
+        case_type = "net_case"
+        verdict_fn = "net_verdict"
+        shard_size = 25
+
+        def generate(self, rng, tier):
+            out = []
+            while len(out) < (60 if tier == "quick" else 800):
+                d = c10.gen_case(rng, tier, False, True)
+                if not d["expo"]:
+                    continue
+                d["style"] = "with"
+                d["mon"] = []
+                for c in d["comps"]:
+                    c.pop("bare", None)
+                d["first"] = rng.choice([0.5, 1.0, 1.5])
+                out.append(d)
+            return out
+
+        def run(self, d):
+            names = [x[2] for x in d["expo"]]
+            e = copy.deepcopy(d)
+            e["comps"][0]["S"] = [[[0.0, 0.0], [1.0, 0.0]], [[1.0, 0.0], [0.0, 0.0]]]     # PS = 0 (the default)
+            try:
+                solA, _ = netlib.build(d)
+                solA.solve(PS=d["first"], wl=1.3)
+                lk_ = netlib.lk
+                lk_.CWA(3, 10.0).solve(wl=1.7)            # a library block that has no parameter dictionary of its own
+                solB, _ = netlib.build(d)                 # built AFTER those solves, from fresh objects
+                mod = solB.solve()
+                if sorted(p.name for p in mod.pin_dic) != sorted(names):
+                    raise ValueError("exposed pin set differs")
+                obs = netlib.obs_matrix_lit(netlib.observe_expo(mod, names))
+            except Exception:
+                obs = "Raised"
+            return netlib.net_case_lit(e, obs)
+
+        def nontrivial(self, d):
+            return len(d["comps"]) >= 2 and len(d["conns"]) >= 1
+
+        def classify(self, d):
+            return "c%d/first%.1f" % (len(d["comps"]), d["first"])
+
+        def shrink(self, d):
+            return [e for e in netlib.shrink_netlist(d) if e["comps"] and e["comps"][0].get("ps")]
+
+    main("C06", [PurityStream(), MonitorReread(), LaterBuiltStream()],
          level_text="props/C06.v; the tie solves a hierarchy and its (shared) sub-solvers in random order with random "
                     "argument subsets, keeps every result alive, reads each result right after its call and again after all "
                     "later calls, and compares both readings with the model's history-free value for that call; spy leaves "
                     "(transmission = weighted sum over EVERY key they received) expose anything that leaks between calls; the "
-                    "structures, connections, exposed pins, renamings and defaults of every solver are compared around each call.",
+                    "structures, connections, exposed pins, renamings and defaults of every solver are compared around each call. "
+                    "A further stream builds the same circuit again AFTER earlier solves (from fresh objects, incl. blocks created "
+                    "without a parameter dictionary) and requires the model's answer for the defaults: a solve has no effect on "
+                    "circuits built later.",
          trusted_base=TRUSTED,
          assumptions=["'results already returned are not mutated' is a statement about Python aliasing: it is observed over "
                       "the histories run (the model proves history-freedom of the values)"])
